@@ -55,7 +55,7 @@ func (e *Engine) freshVal(hint string, t types.Type, inv *[]*Term) Val {
 		case u.Kind() == types.UnsafePointer:
 			p := tb.Fresh(hint, BV(64))
 			if inv != nil {
-				*inv = append(*inv, tb.Ult(p, tb.ConstU(1<<47, 64)))
+				*inv = append(*inv, tb.Ult(p, tb.ConstU(preLimit-(1<<32), 64)))
 			}
 			return Scalar{p}
 		case u.Info()&(types.IsInteger|types.IsFloat) != 0:
@@ -66,7 +66,7 @@ func (e *Engine) freshVal(hint string, t types.Type, inv *[]*Term) Val {
 	case *types.Pointer, *types.Map, *types.Chan, *types.Signature:
 		p := tb.Fresh(hint, BV(64))
 		if _, isPtr := u.(*types.Pointer); isPtr && inv != nil {
-			*inv = append(*inv, tb.Ult(p, tb.ConstU(1<<47, 64)))
+			*inv = append(*inv, tb.Ult(p, tb.ConstU(preLimit-(1<<32), 64)))
 		}
 		if _, isSig := u.(*types.Signature); isSig {
 			return FuncV{Handle: p}
@@ -105,7 +105,13 @@ func (e *Engine) freshVal(hint string, t types.Type, inv *[]*Term) Val {
 	panic(fmt.Sprintf("freshVal: unsupported type %s", t))
 }
 
+// Address-space split (assumption A3): everything that exists before the call
+// under proof (parameters, globals, constants) lives below preLimit; memory
+// allocated during the call lives in [preLimit, addrLimit). Fresh allocations
+// are therefore disjoint from anything reachable from the inputs without
+// enumerating it.
 const addrLimit = 1 << 47
+const preLimit = 1 << 46
 
 // sliceInv: 0 <= len <= cap, region [ptr, ptr+cap*esz) inside the user address
 // space (no wrap-around), nil pointer implies zero capacity.
@@ -114,12 +120,12 @@ func (e *Engine) sliceInv(s SliceV, esz int64) []*Term {
 	if esz <= 0 {
 		esz = 1
 	}
-	lim := tb.ConstU(addrLimit/uint64(esz), 64)
+	lim := tb.ConstU(preLimit/uint64(esz), 64)
 	return []*Term{
 		tb.Ule(s.Len, s.Cap),
 		tb.Ule(s.Cap, lim),
-		tb.Ule(s.Ptr, tb.ConstU(addrLimit, 64)),
-		tb.Ule(tb.Add(s.Ptr, tb.Mul(s.Cap, tb.ConstU(uint64(esz), 64))), tb.ConstU(addrLimit, 64)),
+		tb.Ule(s.Ptr, tb.ConstU(preLimit, 64)),
+		tb.Ule(tb.Add(s.Ptr, tb.Mul(s.Cap, tb.ConstU(uint64(esz), 64))), tb.ConstU(preLimit, 64)),
 		tb.Implies(tb.Eq(s.Ptr, tb.ConstU(0, 64)), tb.Eq(s.Cap, tb.ConstU(0, 64))),
 	}
 }
@@ -127,9 +133,9 @@ func (e *Engine) sliceInv(s SliceV, esz int64) []*Term {
 func (e *Engine) stringInv(s StringV) []*Term {
 	tb := e.tb
 	return []*Term{
-		tb.Ule(s.Len, tb.ConstU(addrLimit, 64)),
-		tb.Ule(s.Ptr, tb.ConstU(addrLimit, 64)),
-		tb.Ule(tb.Add(s.Ptr, s.Len), tb.ConstU(addrLimit, 64)),
+		tb.Ule(s.Len, tb.ConstU(preLimit, 64)),
+		tb.Ule(s.Ptr, tb.ConstU(preLimit, 64)),
+		tb.Ule(tb.Add(s.Ptr, s.Len), tb.ConstU(preLimit, 64)),
 		tb.Implies(tb.Eq(s.Ptr, tb.ConstU(0, 64)), tb.Eq(s.Len, tb.ConstU(0, 64))),
 	}
 }
